@@ -185,7 +185,7 @@ func c10xmlText(c *core.Ctx) {
 
 func C10(c *core.Ctx) {
 	c10xmlText(c)
-	c.Rule = "complete boundary matrix: 8 integer targets × (10 Go integer kinds × boundary values of the kind ∪ float64/float32 boundary set ∪ string boundary set) + decimal64/bool/string targets + list forms + ConvOneOf; thorough adds random values and exhaustive 8/16-bit sources. non-trivial = source denotes a number at or beyond a range boundary of source or target kind; distinct by (target, kind, value)"
+	c.Rule = "complete boundary matrix: 8 integer targets × (10 Go integer kinds × boundary values of the kind ∪ float64/float32 boundary set ∪ string boundary set) + decimal64/bool/string targets + list forms + ConvOneOf; thorough adds random values and exhaustive 8/16-bit sources; directed: the text of XML elements of 16 leaf kinds (string, union, numbers, boolean, enumeration, leafrefs to them, as leaf and leaf-list) with surrounding white space through ReadXMLDoc. non-trivial = source denotes a number at or beyond a range boundary of source or target kind; distinct by (target, kind, value)"
 	c.Assumptions = append(c.Assumptions,
 		"strconv.ParseInt/ParseUint base 10 = the model's decimal parser (exercised on the string boundary set)",
 		"Go float semantics: x != math.Trunc(x) detects fractions; float64(int64) rounds to nearest; a float64 is passed to the model as the exact dyadic m*2^e from math.Frexp",
